@@ -22,7 +22,7 @@ RULE = ("one world per seed: adaptive (5/6) or fixed-level (1/6) multilevel run 
 REAL = ["rpylib.montecarlo.multilevel.engine", "rpylib.montecarlo.multilevel.criteria",
         "rpylib.montecarlo.statistic.{statistic,tools}", "rpylib.montecarlo.path (MLMCPath)",
         "rpylib.product.{product,payoff,underlying}", "rpylib.montecarlo.configuration", "dill round trip per task"]
-STUB = ["coupling process -> scenarios.stubs.ScriptedCoupling", "pathos pool -> SimPool", "clock/pid/entropy/RNG seams",
+STUB = ["coupling process -> scenarios.stubs.ScriptedCoupling (88% of the worlds; 12% run the REAL CouplingMarkovChain)", "pathos pool -> SimPool", "clock/pid/entropy/RNG seams",
         "gmpy2.qdiv, tqdm"]
 ASSUMPTIONS = ["payoff reference formulas written independently in the oracle",
                "moments compared with rtol 1e-9 (different summation order allowed)",
@@ -30,7 +30,7 @@ ASSUMPTIONS = ["payoff reference formulas written independently in the oracle",
 TIERS = {
     "quick": {"worlds": 700, "wall": 520, "shrink_budget": 60,
               "required_probes": ["c05.run_completed", "c05.level_added_late", "c05.multi_pass", "c05.with_controls",
-                                  "c05.pool_run", "c05.fixed_variant"]},
+                                  "c05.pool_run", "c05.fixed_variant", "c05.real_coupling_run"]},
     "thorough": {"worlds": 30000, "wall": 3300, "shrink_budget": 150,
                  "required_probes": ["c05.run_completed", "c05.level_added_late", "c05.multi_pass", "c05.with_controls",
                                      "c05.pool_run", "c05.fixed_variant", "c05.pass_with_idle_level"]},
@@ -38,10 +38,120 @@ TIERS = {
 
 
 def generate(seed, tier="quick"):
+    from simkit.world import sub_rng
+
+    r = sub_rng(seed, "c05.real")
+    if r.random() < 0.12:
+        # second configuration: the REAL coupled Markov chain on a tiny grid instead of the scripted coupling; samples are
+        # identified by their path arrays (sample ledger at MCPath.set_to_path)
+        return {"world_seed": seed, "real": True, "variant": "adaptive",
+                "process": {"kind": "coupling", "model": r.choice(["hem", "hem_lowint", "cgmy02", "vg"]),
+                            "grid": {"kind": "fixed", "h": r.choice([0.1, 0.05]), "n": r.choice([6, 10])},
+                            "method": r.choice(["adapted1d", "inversion"])},
+                "product": {"kind": r.choice(["call", "put"]), "maturity": r.choice([0.5, 1.0]), "strike": r.choice([95.0, 100.0, 105.0]),
+                            "dates": 2, "notional": r.choice([1.0, 2.0])},
+                "n0": r.choice([5, 20, 50]), "initial_level": 2, "maximum_level": r.choice([2, 3, 4]),
+                "rmse": r.choice([2.0, 1.0, 0.5]), "nproc": r.choice([1, 1, 2, 4]), "seed": r.choice([None, 9]),
+                "controls": [], "env": {"cpu_count": 4, "path_cost": 1e-5, "spawn_cost": 1e-4}}
     return M.generate(seed, tier, label="c05")
 
 
-shrink_candidates = M.shrink_candidates
+def shrink_candidates(sc):
+    if sc.get("real"):
+        import copy
+
+        for k, v in (("nproc", 1), ("n0", 5), ("maximum_level", 2), ("rmse", 2.0)):
+            if sc[k] != v:
+                c = copy.deepcopy(sc)
+                c[k] = v
+                yield c
+        return
+    yield from M.shrink_candidates(sc)
+
+
+def _execute_real(wd, sc):
+    """real CouplingMarkovChain through the real adaptive engine; reference = pristine product on every ledger path"""
+    import copy
+
+    from rpylib.montecarlo.configuration import ConfigurationMultiLevel, compute_convergence_rates
+    from rpylib.montecarlo.multilevel.engine import Engine
+    from rpylib.process.process import ProcessRepresentation
+    from simkit.world import HarnessError
+    from . import builders as B
+
+    V, errors = [], []
+    cls = f"real-coupling|procs={'1' if sc['nproc'] == 1 else 'pool'}"
+    try:
+        cp = B.build_process(sc["process"])
+        product = B.build_product(sc["product"], cp.model)
+        pristine = copy.deepcopy(product)
+        cr = compute_convergence_rates(cp.model.blumenthal_getoor_index())
+        cfg = ConfigurationMultiLevel(convergence_rates=cr, initial_level=sc["initial_level"], maximum_level=sc["maximum_level"],
+                                      initial_mc_paths=sc["n0"], seed=sc["seed"], nb_of_processes=sc["nproc"])
+        eng = Engine(cfg, cp)
+        stats = eng.price(product, sc["rmse"])
+    except HarnessError:
+        raise
+    except Exception as e:
+        wd.probes["c05.run_raised"] += 1
+        return {"violations": [], "errors": [{"kind": type(e).__name__, "msg": str(e)[:160]}], "info": {}, "key": None,
+                "nontrivial": False}
+    wd.probes["c05.run_completed"] += 1
+    wd.probes["c05.real_coupling_run"] += 1
+    if len(wd.samples) > 60000:
+        raise HarnessError("sample cap")
+    T = sc["product"]["maturity"]
+    df = float(cp.fine_process.df(T))
+    nlev = len(stats.mlmc_results.Nl)
+    rep = cp.fine_process.process_representation
+    tot = 0.0
+    for lvl in range(nlev):
+        recs = [x for x in wd.samples if x["level"] == lvl]
+        f = np.asarray(stats.simulation_payoff_with_fine_process(level=lvl, no_control_variates=True), dtype=float)
+        c = np.asarray(stats.simulation_payoff_with_coarse_process(level=lvl, no_control_variates=True), dtype=float)
+        late = "late-level" if lvl > sc["initial_level"] else "initial-level"
+        if int(stats.mlmc_results.Nl[lvl]) != len(recs) or f.shape[0] != len(recs):
+            V.append({"sig": f"C05.count|reported N_l / stored rows differ from the number of samples simulated at the level|{late}|{cls}",
+                      "oracle": "count", "detail": {"level": lvl, "Nl": int(stats.mlmc_results.Nl[lvl]), "rows": int(f.shape[0]),
+                                                    "simulated": len(recs)}})
+            continue
+        pm = eng.path_managers[lvl]
+        bad = None
+        for i, rec_ in enumerate(recs):
+            times = rec_["times"]
+            det = np.asarray(pm.deterministic_path(times), dtype=float)
+            comps = [(0, f)] if lvl == 0 else [(0, f), (1, c)]
+            for ci, store in comps:
+                d = rec_["diff"] if lvl == 0 else rec_["diff"][ci]
+                j = rec_["jump"] if lvl == 0 else rec_["jump"][ci]
+                dd = det if lvl == 0 else det[ci]
+                pr = copy.deepcopy(pristine)
+                pr.update(rep)
+                val = float(pr(pr.underlying_value(times, dd + d + j, j))) * df
+                if not np.isclose(store[i], val, rtol=1e-12, atol=1e-12 * (1 + abs(val))):
+                    bad = (i, "fine" if ci == 0 else "coarse", float(store[i]), val)
+                    break
+            if bad:
+                break
+        if bad:
+            V.append({"sig": f"C05.rows|stored {bad[1]} payoff is not the payoff of the sample simulated for that row|{late}|{cls}",
+                      "oracle": "rows", "detail": {"level": lvl, "row": bad[0], "stored": bad[2], "expected": bad[3]}})
+        if lvl == 0 and np.any(c != 0.0):
+            V.append({"sig": f"C05.rows|coarse payoff at level 0 is not identically zero|{cls}", "oracle": "rows", "detail": {}})
+        tot += float(np.mean(f - c)) if len(recs) else 0.0
+    got = float(stats.price(no_control_variates=True))
+    if not np.isclose(got, tot, rtol=1e-9, atol=1e-9 * (1 + abs(tot))):
+        V.append({"sig": f"C05.price|price is not the sum over levels of the mean of (fine - coarse) over the simulated samples|{cls}",
+                  "oracle": "price", "detail": {"got": got, "expected": tot}})
+    starts = [c_ for c_ in wd.control if c_[0] == "level.start"]
+    if any(c_[1] > sc["initial_level"] for c_ in starts):
+        wd.probes["c05.level_added_late"] += 1
+    if sc["nproc"] != 1:
+        wd.probes["c05.pool_run"] += 1
+    traj = tuple((c_[1], c_[2], c_[3]) for c_ in starts)
+    key = hashlib.sha256(repr(("real", sc["process"], traj)).encode()).hexdigest()[:16]
+    return {"violations": V, "errors": errors, "info": {"samples": len(wd.samples), "levels": nlev}, "key": key,
+            "nontrivial": len(starts) > sc["initial_level"] + 1}
 
 
 def _multiset_diag(rows, ref):
@@ -126,6 +236,8 @@ def check_snapshot(sc, ledger, snap, V, where):
 
 
 def execute(wd, sc):
+    if sc.get("real"):
+        return _execute_real(wd, sc)
     rec = M.run(wd, sc)
     V, errors = [], []
     if rec["harness"]:
@@ -236,6 +348,8 @@ def execute(wd, sc):
 
 
 def summarise(sc, o):
+    if sc.get("real"):
+        return {"scenario": sc, "violations": [v["sig"] for v in o["violations"]], "info": o.get("info")}
     return {"scenario": {k: sc[k] for k in ("variant", "n0", "initial_level", "maximum_level", "rmse", "rates", "criteria",
                                             "nproc", "law")}, "controls": len(sc["controls"]),
             "decisions": len(o.get("trace", [])), "violations": [v["sig"] for v in o["violations"]], "info": o.get("info")}
